@@ -88,13 +88,15 @@ def _cmake_sources(cmakelists, target):
     return srcs
 
 
-def _prune(prefix, keep, keep_n=2):
-    """Drops older builds of the same kind, keeping the newest few: a concurrently running check may still
-    be about to launch executables linked against the previous build."""
+def _prune(prefix, keep, keep_n=12, max_age_s=5400):
+    """Drops old builds of the same kind. Several checks (and scratch trees given through VERIF_REPO) may be building and
+    running at the same time, so a build is only removed when it is old or when there are many newer ones."""
     ds = [d for d in glob.glob(os.path.join(BUILD, prefix + "-*")) if os.path.isdir(d) and os.path.basename(d) != keep and not d.endswith(".tmp")]
     ds.sort(key=lambda d: os.path.getmtime(d), reverse=True)
-    for d in ds[keep_n:]:
-        shutil.rmtree(d, ignore_errors=True)
+    now = time.time()
+    for i, d in enumerate(ds):
+        if i >= keep_n or now - os.path.getmtime(d) > max_age_s:
+            shutil.rmtree(d, ignore_errors=True)
 
 
 def _run(cmd, **kw):
